@@ -46,6 +46,8 @@ inductive Err where
   | alreadyFinished
   /-- `self._out_states[chosen]`: `KeyError` -/
   | keyError
+  /-- `received_event_times[event_handler]`: `KeyError` -/
+  | timeMissing
   /-- `assert self._event_handlers_state[pipe_with_shortest_event_time] == EventHandlerState.idle` -/
   | assertIdle
   /-- worker: `MediatorError("Continue event is not allowed in idle state!")` -/
@@ -164,8 +166,8 @@ structure Loop where
   deque : List Nat := []
   /-- `event_times_received` -/
   received : Nat := 0
-  /-- `scheduler.push_event` calls in order: (handler, tag of the candidate time) -/
-  pushed : List (Nat × Nat) := []
+  /-- `received_event_times` in the order of the assignments: (handler, tag of the candidate time) -/
+  recvd : List (Nat × Nat) := []
   /-- handlers whose out-state computation was started ahead of time, in order -/
   pre : List Nat := []
   /-- stage of the returned pipes at the moment of each `wait` (newest first) -/
@@ -193,7 +195,7 @@ def procPipe (c : Cfg) (total : Nat) (L : Loop) (h : Nat) : Except Err Loop :=
       let L1 : Loop := { L with st := upd L.st h y,
                                 deque := if c.outArgs h then L.deque else L.deque ++ [h],
                                 received := L.received + 1,
-                                pushed := L.pushed ++ [(h, t)] }
+                                recvd := L.recvd ++ [(h, t)] }
       if 0 < total - L1.received ∧ total - L1.received < c.cores - 1 ∧ L1.deque ≠ [] then startNext L1
       else .ok L1
   | .outStarted =>
@@ -301,12 +303,32 @@ def trashAll : St → List Nat → Except Err (St × List Nat)
       | .ok (s', ds) => .ok (s', if d then h :: ds else ds)
       | .error e => .error e
 
-/-- first half of a leg: send in-states, receive loop -/
+/-- "Push the candidate event times in the order in which the activator returned the event handlers":
+`for event_handler in event_handlers_in_state_dictionary.keys(): push_event(received_event_times[event_handler], …)`;
+returns the `push_event` calls in order (a dictionary: the last assignment to a key is the one that is read) -/
+def pushAll (recvd : List (Nat × Nat)) : List Nat → Except Err (List (Nat × Nat))
+  | [] => .ok []
+  | h :: hs =>
+    match recvd.reverse.lookup h with
+    | none => .error .timeMissing
+    | some t =>
+      match pushAll recvd hs with
+      | .ok l => .ok ((h, t) :: l)
+      | .error e => .error e
+
+/-- first half of a leg: send in-states, receive loop, pushes; returns the loop variables, the `push_event` calls in
+order and the `wait` results not consumed -/
 def legRecv (c : Cfg) (n : Nat) (s : St) (created : List Nat) (waits : List (List Nat)) :
-    Except Err (Loop × List (List Nat)) :=
+    Except Err (Loop × List (Nat × Nat) × List (List Nat)) :=
   match sendAll n s created with
   | .error e => .error e
-  | .ok s1 => recvLoop c created { st := s1 } waits
+  | .ok s1 =>
+    match recvLoop c created { st := s1 } waits with
+    | .error e => .error e
+    | .ok (L, rest) =>
+      match pushAll L.recvd created with
+      | .error e => .error e
+      | .ok ps => .ok (L, ps, rest)
 
 /-- is the adversary of this leg legitimate? -/
 def legLegit (c : Cfg) (n : Nat) (s : St) (created : List Nat) (waits : List (List Nat)) : Bool :=
@@ -320,6 +342,8 @@ structure LegOut where
   /-- state at commit time (`insert_into_global_state`), before the trash loop -/
   atCommit : St
   loop : Loop
+  /-- `scheduler.push_event` calls of the leg in order: (handler, tag of the candidate time) -/
+  pushes : List (Nat × Nat)
   waitsLeft : Nat
   /-- tag of the committed out-state -/
   tag : Nat
@@ -334,14 +358,14 @@ def leg (c : Cfg) (n : Nat) (s : St) (created : List Nat) (waits : List (List Na
     (trash : List Nat) : Except Err LegOut :=
   match legRecv c n s created waits with
   | .error e => .error e
-  | .ok (L, left) =>
+  | .ok (L, ps, left) =>
     match (L.st chosen).commit with
     | .error e => .error e
     | .ok (tag, path, y) =>
       let s2 := upd L.st chosen y
       match trashAll s2 trash with
       | .error e => .error e
-      | .ok (s3, ds) => .ok ⟨s3, s2, L, left.length, tag, path, ds⟩
+      | .ok (s3, ds) => .ok ⟨s3, s2, L, ps, left.length, tag, path, ds⟩
 
 /-! ## the coherence invariant, as a decidable check (used by the theorems and evaluated by the driver) -/
 
@@ -422,8 +446,8 @@ def runMP (env : Env G E T O) (cfg : Cfg) :
     if legLegit cfg n s cr ws = false then .error (n, .adversary) else
     match legRecv cfg n s cr ws with
     | .error err => .error (n, err)
-    | .ok (L, _) =>
-      let (c, e2) := env.choose e1 (L.pushed.map fun p => (p.1, env.timeOf p.1 p.2 (hist' p.2)))
+    | .ok (L, ps, _) =>
+      let (c, e2) := env.choose e1 (ps.map fun p => (p.1, env.timeOf p.1 p.2 (hist' p.2)))
       match (L.st c).commit with
       | .error err => .error (n, err)
       | .ok (tag, _, y) =>
